@@ -1,4 +1,155 @@
-import GeomV.C06.Model
-import GeomV.C06.Spec
+import GeomV.C06.Lemmas
+/-!
+# C06 — property theorems (model of encoding/geojson)
+
+* `C06_roundtrip`   six supported types, finite coordinates, first member non-empty ⇒
+                    `fromTree (toTree g) = ok g` (same constructor, nesting, coordinates).
+* `C06_shape`       whatever the encoder returns is an RFC 7946 geometry object with exactly the members
+                    `type` (one of the six names) and `coordinates`, nested 1/2/2/3/3/4 deep with
+                    innermost `[x, y]`: the independent RFC reader returns `g` from it.
+* `C06_errors`      GeometryCollection, *Bounds (nil) ⇒ unsupported; any non-finite coordinate ⇒ nonFinite.
+* `C06_guard_exact` first member empty ⇒ the encoder still succeeds and the decoder returns
+                    InvalidGeometryError: the asymmetry behind the statement's guard.
+* `C06_encode_total` the encoder's result in closed form (exactly when it succeeds and with what).
+No bound on member counts. Numbers are abstract (`F` with a `fin` predicate); number *text* is the stdlib
+contract measured by the correspondence run.
+-/
+set_option linter.unusedSimpArgs false
+set_option linter.unusedVariables false
 namespace GeomV.C06
+open GeomV GeomV.C06.Rfc
+
+variable {F : Type} (fin : F → Bool)
+
+/-- **C06_encode_total**: `Encode` (up to number text) succeeds exactly on the six supported types with
+finite coordinates, with the document `docOf g`; otherwise `unsupported` resp. `nonFinite`. -/
+theorem C06_encode_total (g : Geom F) :
+    toTree fin g = if supported g then (if allFinite fin g then .ok (docOf g) else .error .nonFinite)
+                   else .error .unsupported := toTree_eq fin g
+
+/-- **C06_errors** ("Unsupported types and non-finite coordinates are reported as errors by Encode"). -/
+theorem C06_errors (g : Geom F) :
+    (supported g = false → toTree fin g = .error .unsupported) ∧
+    (supported g = true → allFinite fin g = false → toTree fin g = .error .nonFinite) := by
+  constructor
+  · intro h; simp [toTree_eq, h]
+  · intro h1 h2; simp [toTree_eq, h1, h2]
+
+/-- **C06_shape** ("the JSON text is an RFC 7946 geometry object whose coordinates array nests exactly as
+the type requires, in [x, y] order"): every document the encoder returns is read back to `g` by the
+independent RFC 7946 reader, which accepts only objects with exactly the members `type` ∈ the six names
+and `coordinates` of nesting depth 1/2/2/3/3/4 with innermost arrays `[x, y]`. -/
+theorem C06_shape (g : Geom F) (t : Tree F) (h : toTree fin g = .ok t) : Rfc.read t = some g := by
+  rw [toTree_eq] at h
+  by_cases hs : supported g = true
+  · by_cases hf : allFinite fin g = true
+    · simp [hs, hf] at h
+      subst h
+      cases g with
+      | point p => simp [docOf, Rfc.read, member, position_pt]
+      | multiPoint ps => simp [docOf, Rfc.read, member, positions_pts]
+      | lineString ps => simp [docOf, Rfc.read, member, positions_pts]
+      | multiLineString ls => simp [docOf, Rfc.read, member, positionss_ptss]
+      | polygon ls => simp [docOf, Rfc.read, member, positionss_ptss]
+      | multiPolygon ps => simp [docOf, Rfc.read, member, positionsss_ptsss]
+      | collection _ => simp [supported] at hs
+      | bounds _ _ => simp [supported] at hs
+      | nil => simp [supported] at hs
+    · simp [hs, hf] at h
+  · simp [hs] at h
+
+/-- decoding the encoder's own document, in closed form: error exactly when the first member is empty -/
+theorem fromTree_docOf (g : Geom F) (hs : supported g = true) :
+    fromTree (docOf g) = if firstMemberNonEmpty g then .ok g else .error .invalid := by
+  cases g with
+  | point p =>
+    simp [docOf, fromTree, unmarshal_doc, fromGeoJSON, decodeCoordinates_t1, pointCoordinates,
+      firstMemberNonEmpty, bind, Except.bind, pure, Except.pure]
+  | multiPoint ps =>
+    cases ps with
+    | nil => simp [docOf, fromTree, unmarshal_doc, fromGeoJSON, decodeCoordinates2_t2, pointsCoordinates,
+        firstMemberNonEmpty, bind, Except.bind, pure, Except.pure]
+    | cons p ps =>
+      have := makeLinearRing_coords (p :: ps)
+      simp [pointsCoordinates, pointCoordinates] at this
+      simp [docOf, fromTree, unmarshal_doc, fromGeoJSON, decodeCoordinates2_t2, pointsCoordinates,
+        pointCoordinates, this, firstMemberNonEmpty, bind, Except.bind, pure, Except.pure]
+  | lineString ps =>
+    cases ps with
+    | nil => simp [docOf, fromTree, unmarshal_doc, fromGeoJSON, decodeCoordinates2_t2, pointsCoordinates,
+        firstMemberNonEmpty, bind, Except.bind, pure, Except.pure]
+    | cons p ps =>
+      have := makeLinearRing_coords (p :: ps)
+      simp [pointsCoordinates, pointCoordinates] at this
+      simp [docOf, fromTree, unmarshal_doc, fromGeoJSON, decodeCoordinates2_t2, pointsCoordinates,
+        pointCoordinates, this, firstMemberNonEmpty, bind, Except.bind, pure, Except.pure]
+  | multiLineString ls =>
+    have hm := makeLinearRings_coords ls
+    simp only [makeLinearRings] at hm
+    rcases ls with _ | ⟨_ | ⟨p, l⟩, ls⟩
+    · simp [docOf, fromTree, unmarshal_doc, fromGeoJSON, decodeCoordinates3_t3, pointssCoordinates,
+        firstMemberNonEmpty, bind, Except.bind, pure, Except.pure]
+    · simp [docOf, fromTree, unmarshal_doc, fromGeoJSON, decodeCoordinates3_t3, pointssCoordinates,
+        pointsCoordinates, firstMemberNonEmpty, bind, Except.bind, pure, Except.pure]
+    · simp [pointssCoordinates, pointsCoordinates, pointCoordinates] at hm
+      simp [docOf, fromTree, unmarshal_doc, fromGeoJSON, decodeCoordinates3_t3, pointssCoordinates,
+        pointsCoordinates, pointCoordinates, hm, firstMemberNonEmpty, bind, Except.bind, pure, Except.pure]
+  | polygon ls =>
+    have hm := makeLinearRings_coords ls
+    rcases ls with _ | ⟨_ | ⟨p, l⟩, ls⟩
+    · simp [docOf, fromTree, unmarshal_doc, fromGeoJSON, decodeCoordinates3_t3, pointssCoordinates,
+        firstMemberNonEmpty, bind, Except.bind, pure, Except.pure]
+    · simp [docOf, fromTree, unmarshal_doc, fromGeoJSON, decodeCoordinates3_t3, pointssCoordinates,
+        pointsCoordinates, firstMemberNonEmpty, bind, Except.bind, pure, Except.pure]
+    · simp [pointssCoordinates, pointsCoordinates, pointCoordinates] at hm
+      simp [docOf, fromTree, unmarshal_doc, fromGeoJSON, decodeCoordinates3_t3, pointssCoordinates,
+        pointsCoordinates, pointCoordinates, hm, firstMemberNonEmpty, bind, Except.bind, pure, Except.pure]
+  | multiPolygon ps =>
+    have hm := mapE_makeLinearRings_coords ps
+    rcases ps with _ | ⟨_ | ⟨_ | ⟨p, l⟩, ls⟩, ps⟩
+    · simp [docOf, fromTree, unmarshal_doc, fromGeoJSON, decodeCoordinates4_t4, pointsssCoordinates,
+        firstMemberNonEmpty, bind, Except.bind, pure, Except.pure]
+    · simp [docOf, fromTree, unmarshal_doc, fromGeoJSON, decodeCoordinates4_t4, pointsssCoordinates,
+        pointssCoordinates, firstMemberNonEmpty, bind, Except.bind, pure, Except.pure]
+    · simp [docOf, fromTree, unmarshal_doc, fromGeoJSON, decodeCoordinates4_t4, pointsssCoordinates,
+        pointssCoordinates, pointsCoordinates, firstMemberNonEmpty, bind, Except.bind, pure, Except.pure]
+    · simp [pointsssCoordinates, pointssCoordinates, pointsCoordinates, pointCoordinates] at hm
+      simp [docOf, fromTree, unmarshal_doc, fromGeoJSON, decodeCoordinates4_t4, pointsssCoordinates,
+        pointssCoordinates, pointsCoordinates, pointCoordinates, hm, firstMemberNonEmpty,
+        bind, Except.bind, pure, Except.pure]
+  | collection _ => simp [supported] at hs
+  | bounds _ _ => simp [supported] at hs
+  | nil => simp [supported] at hs
+
+/-- **C06_roundtrip** (the statement's main clause): for every Point, MultiPoint, LineString,
+MultiLineString, Polygon and MultiPolygon with finite coordinates and at least one vertex in its first
+member, decoding the encoder's document returns the same geometry — same constructor, same nesting
+(later members may be empty), same coordinates. -/
+theorem C06_roundtrip (g : Geom F) (hs : supported g = true) (hf : allFinite fin g = true)
+    (hne : firstMemberNonEmpty g = true) :
+    ∃ t, toTree fin g = .ok t ∧ fromTree t = .ok g :=
+  ⟨docOf g, by simp [toTree_eq, hs, hf], by simp [fromTree_docOf g hs, hne]⟩
+
+/-- **C06_guard_exact** (the guard hides nothing): when the first member has no vertex (an empty
+MultiPoint/LineString, a Multi*/Polygon with no member or whose first member — for MultiPolygon also
+first ring — is empty) `Encode` still succeeds, and `Decode` of that document returns
+`InvalidGeometryError`. A *later* empty member is inside `C06_roundtrip`. -/
+theorem C06_guard_exact (g : Geom F) (hs : supported g = true) (hf : allFinite fin g = true)
+    (hne : firstMemberNonEmpty g = false) :
+    ∃ t, toTree fin g = .ok t ∧ fromTree t = .error .invalid :=
+  ⟨docOf g, by simp [toTree_eq, hs, hf], by simp [fromTree_docOf g hs, hne]⟩
+
+/-! ### Non-vacuity -/
+
+example : ∃ t, toTree (fun _ : Int => true) (.multiPolygon [[[⟨0, 1⟩, ⟨2, 3⟩], []], [], [[]]]) = .ok t ∧
+    fromTree t = .ok (.multiPolygon [[[⟨0, 1⟩, ⟨2, 3⟩], []], [], [[]]]) :=
+  C06_roundtrip _ _ rfl rfl rfl
+
+example : ∃ t, toTree (fun _ : Int => true) (.polygon [[], [⟨0, 1⟩]]) = .ok t ∧
+    fromTree t = .error .invalid :=
+  C06_guard_exact _ _ rfl rfl rfl
+
+example : toTree (fun x : Int => x != 7) (.lineString [⟨0, 1⟩, ⟨7, 3⟩]) = .error .nonFinite :=
+  (C06_errors _ _).2 rfl rfl
+
 end GeomV.C06
